@@ -114,6 +114,34 @@ def pixel_oracle(ctx):
         xf = scene.rand_xf(rng, general=0.6)
         if xf[0] * xf[3] - xf[1] * xf[2] == 0:
             xf = scene.IDENT
+        if kind == 5:
+            # thin sideways quadratics ("darts", flat S shapes): a few pixels tall with the control point hundreds of pixels to
+            # the side, so that the curve has many more segments than sample rows; and tall quadratics whose vertical extremum
+            # lies within a hundredth of the parameter range of one end
+            W = H = 48
+            if rng.random() < 0.6:
+                W, H = 320, 32          # the whole dart is in view: its tip lies half the control point's swing away
+                ya = rng.randrange(0, 4 * H - 64) / 4.0
+                hgt = rng.choice([2.0, 4.0, 5.0, 7.5, 12.0, 15.75])
+                side = rng.choice([-1, 1]) * rng.choice([150.0, 400.0, 600.0, 900.0])
+                x0_ = rng.randrange(20, 160) / 4.0 if side > 0 else W - rng.randrange(20, 160) / 4.0
+                x2_ = x0_ + rng.choice([0.0, 0.0, 3.0, -2.5])
+                c_ = (x0_ + side, ya + hgt * rng.choice([0.5, 0.3, 0.8]))
+                ops = ["M " + scene.fpt(x0_, ya), "Q %s %s" % (scene.fpt(*c_), scene.fpt(x2_, ya + hgt)), "Z"]
+                if rng.random() < 0.3:
+                    ops = ["M " + scene.fpt(x0_, ya), "Q %s %s" % (scene.fpt(*c_), scene.fpt(x2_, ya + hgt)),
+                           "Q %s %s" % (scene.fpt(x2_ - side, ya + hgt * 1.5), scene.fpt(x0_, ya + 2 * hgt)), "Z"]
+                xf = scene.IDENT
+            else:
+                S = rng.choice([400, 1000, 2500])
+                y0_, y2_ = rng.randrange(0, S) / 1.0, rng.randrange(0, S) / 1.0
+                tt = rng.choice([0.004, 0.01, 0.015, 0.99, 0.996, 0.02])
+                y1_ = (y0_ - tt * (y0_ + y2_)) / (1 - 2 * tt)
+                xa, xb, xc = rng.randrange(0, S) / 1.0, rng.randrange(0, S) / 1.0, rng.randrange(0, S) / 1.0
+                ops = ["M " + scene.fpt(xa, y0_), "Q %s %s" % (scene.fpt(xb, y1_), scene.fpt(xc, y2_)), "Z"]
+                tq = rng.random()
+                cq = geom.quad((xa, y0_), (xb, y1_), (xc, y2_), tq)
+                xf = (1.0, 0.0, 0.0, 1.0, float(-(int(cq[0]) - rng.randrange(4, W - 4))), float(-(int(cq[1]) - rng.randrange(4, H - 4))))
         if kind == 6:
             # paths built with PathBuilder::arc among the other calls: as the first call, directly after close(), after
             # lines; the exact shape has a straight edge from the current point (after close: the subpath's start) to
